@@ -129,6 +129,103 @@ def registered_with_signature(ctx: Ctx, rule: str) -> int:
 
 
 
+def load_uses_resolved_keys(ctx: Ctx, rule: str) -> int:
+    """Inside an evaluation, the public load() resolves a path produced elsewhere to the key that the evaluation resolved at its start
+    (the key the signatures of its readers are built on): the top-level function publishes the result of its `fetch_paths` in a field of
+    the evaluation context, and load() consults that field before it asks the store again"""
+    from .common import find_api_functions, ctx_global_name
+    rep = ctx.report
+    prog = ctx.prog
+    top, _nested = find_api_functions(ctx)
+    load = prog.func("dds._api.load")
+    if load is None:
+        raise AnchorError("dds._api.load not found")
+    g = ctx_global_name(ctx)
+    fl = flow_of(prog, top)
+    # fields of the context that the top-level function fills with something derived from a fetch_paths call
+    fields = []
+    for n in top.own_nodes():
+        if isinstance(n, ast.Call) and (unparse(n.func).endswith("_replace") or unparse(n.func).split(".")[-1] == "EvalContext"):
+            for k in n.keywords:
+                if k.arg is None:
+                    continue
+                exprs = [k.value]
+                if isinstance(k.value, ast.Name):
+                    exprs = [d.value for d in fl.root_defs(k.value) if d.value is not None] or exprs
+                # phi of an empty mapping and the fetched one is fine
+                if any(isinstance(x, ast.Call) and isinstance(x.func, ast.Attribute) and x.func.attr == "fetch_paths" for e in exprs for x in ast.walk(e)):
+                    fields.append(k.arg)
+    reads = [x for x in load.own_nodes() if isinstance(x, ast.Attribute) and x.attr in fields and isinstance(x.ctx, ast.Load)]
+    desc = "load() inside an evaluation uses the key that the evaluation resolved for the path when it started"
+    if fields and reads:
+        rep.ok(rule, load.qname, desc + f" (context field `{fields[0]}`)", load.loc(reads[0]))
+    else:
+        fp = [x for x in load.own_nodes() if isinstance(x, ast.Call) and isinstance(x.func, ast.Attribute) and x.func.attr == "fetch_paths"]
+        rep.bad(rule, load.qname, desc, load.loc(fp[0]) if fp else load.loc(), [
+            (f"{top.loc()}: the keys resolved by {top.name} (`fetch_paths(..)` before the analysis) are not published in the evaluation context `{g}`" if not fields
+             else f"{load.loc()}: load() does not consult the context field(s) {fields}"),
+            f"{load.loc(fp[0]) if fp else load.loc()}: load() asks the store again while the evaluation runs",
+            "another process re-points the path between the two reads: the reader is computed from the new content and stored under the key built on the old one; that foreign "
+            "blob is then served to everybody for whom the path holds the old content"], "load-resolves-twice",
+            what="dds.load resolves an external path a second time during the evaluation: a result can be stored under the key of other inputs")
+    return 1
+
+
+def previous_covers_loads(ctx: Ctx, rule: str) -> int:
+    """In the visitor of the main analysis, the signature of "what the function did before this call" that is handed to the call inspector
+    covers every list in which the visitor records the outcome of an inspected call - the interactions AND the loaded paths: a value read
+    with dds.load may be passed to the next call as a run-time argument"""
+    rep = ctx.report
+    prog = ctx.prog
+    vis = prog.cls("dds.introspect.IntroVisitor")
+    if vis is None:
+        raise AnchorError("dds.introspect.IntroVisitor not found")
+    n = 0
+    for m in vis.methods.values():
+        if not m.name.startswith("visit_"):
+            continue
+        recorded = sorted({x.func.value.attr for x in m.own_nodes() if isinstance(x, ast.Call) and isinstance(x.func, ast.Attribute) and x.func.attr == "append"
+                           and isinstance(x.func.value, ast.Attribute) and isinstance(x.func.value.value, ast.Name) and x.func.value.value.id == "self"})
+        insp = [x for x in m.own_nodes() if isinstance(x, ast.Call) and isinstance(x.func, ast.Attribute) and x.func.attr == "inspect_call"]
+        if not recorded or not insp:
+            continue
+        for call in insp:
+            n += 1
+            covered = set()
+            # the expressions the arguments are made of: through local definitions and through the methods of the visitor they call
+            work = [(m, a) for a in list(call.args) + [k.value for k in call.keywords]]
+            seen_e = set()
+            while work and len(seen_e) < 400:
+                g_, e_ = work.pop()
+                if id(e_) in seen_e:
+                    continue
+                seen_e.add(id(e_))
+                for x in ast.walk(e_):
+                    if isinstance(x, ast.Attribute) and x.attr in recorded and isinstance(x.value, ast.Name) and x.value.id == "self" and isinstance(x.ctx, ast.Load):
+                        covered.add(x.attr)
+                    elif isinstance(x, ast.Name) and isinstance(x.ctx, ast.Load):
+                        from ..cfg import cfg_of as _cfg
+                        if _cfg(g_).nodes_of(x):
+                            for d in flow_of(prog, g_).defs_of_use(x):
+                                if d.value is not None:
+                                    work.append((g_, d.value))
+                    elif isinstance(x, ast.Call) and isinstance(x.func, ast.Attribute) and isinstance(x.func.value, ast.Name) and x.func.value.id == "self" and x.func.attr in vis.methods:
+                        h_ = vis.methods[x.func.attr]
+                        for r_ in h_.own_nodes():
+                            if isinstance(r_, ast.Return) and r_.value is not None:
+                                work.append((h_, r_.value))
+            missing = [r for r in recorded if r not in covered]
+            desc = f"{m.name}: the context given to the call inspector covers what the visitor recorded so far ({', '.join(recorded)})"
+            if missing:
+                rep.bad(rule, m.qname, desc, m.loc(call), [f"{m.loc(call)}: no argument of `{unparse(call, 50)}` derives from `self.{missing[0]}`",
+                        "`v = dds.load('/x'); dds.keep('/y', g, v)`: the key of the keep does not depend on what '/x' currently resolves to: after '/x' is produced again with "
+                        "another content, '/y' keeps its key and the stale blob is served (101 instead of 201)"], f"prev-misses:{','.join(missing)}",
+                        what="the call-site context of a kept call does not cover the paths loaded before it")
+            else:
+                rep.ok(rule, m.qname, desc, m.loc(call))
+    return n
+
+
 def dedup_complete(ctx: Ctx, rule: str) -> int:
     """the order-preserving de-duplication helpers of the analysis (one list in, one list out, a loop with a membership test) return every
     distinct element once, in order of first appearance - decided by abstract evaluation on sample lists"""
@@ -547,6 +644,11 @@ def run(ctx: Ctx) -> None:
                                 "a function that loads the same path twice contributes two equal pairs, which cancel: the reader's signature no longer depends on the path"],
                                 stmt_key(n), what="duplicate loads cancel out of the reader's signature")
     rep.floor("C09.R6", n6, 1)
+    rep.rule("C09.R17", "inside an evaluation, load() resolves a path produced elsewhere to the key resolved when the evaluation started (the one its readers' signatures use)")
+    load_uses_resolved_keys(ctx, "C09.R17")
+    rep.rule("C09.R16", "the signature of the previous steps that keys a call with run-time arguments covers the paths loaded so far, not only the calls made so far")
+    n16 = previous_covers_loads(ctx, "C09.R16")
+    rep.floor("C09.R16", n16, 2)
     rep.rule("C09.R14", "every path a function loads enters its signature: the de-duplication of the loaded paths keeps every distinct path (abstract evaluation on sample lists)")
     n14 = dedup_complete(ctx, "C09.R14")
     rep.floor("C09.R14", n14, 0)
